@@ -52,11 +52,19 @@ fn one_target<T: Elem>(ctx: &mut Ctx, t: Target<T>) {
     let pool_b: Vec<T> = (0..maxlen).map(|_| gen(&mut rng)).collect();
     let value = gen(&mut rng);
     let mut run = Run::new(ctx, t, maxlen);
-    run.opts = CheckOpts { values: true, skip_float_reductions: true, panics_ok: false };
+    run.opts = CheckOpts {
+        values: true,
+        skip_float_reductions: true,
+        panics_ok: false,
+    };
     let kind = t.r.kind();
     let one = [0usize];
     let lb_grid: &[usize] = if kind_uses_b(kind) { &grid } else { &one };
-    let lr_grid: &[usize] = if matches!(kind, Kind::Map2 | Kind::Map1V) { &grid } else { &one };
+    let lr_grid: &[usize] = if matches!(kind, Kind::Map2 | Kind::Map1V) {
+        &grid
+    } else {
+        &one
+    };
     let places = [[Place::End; 3], [Place::Start; 3]];
     let mut n = 0u64;
     for &la in &grid {
@@ -75,7 +83,14 @@ fn one_target<T: Elem>(ctx: &mut Ctx, t: Target<T>) {
                     c.salt = place_salt(&place);
                     let agree = c.lengths_agree();
                     run.tally.note_len(la);
-                    run.tally.add(if agree { "class:lengths_agree" } else { "class:mismatch" }, 1);
+                    run.tally.add(
+                        if agree {
+                            "class:lengths_agree"
+                        } else {
+                            "class:mismatch"
+                        },
+                        1,
+                    );
                     let nontrivial = la + lb + lr > 0;
                     let (ar, opts) = (&mut run.ar, run.opts);
                     run.ctx.run_case(&c, nontrivial, &mut |c| check_call(c, ar, opts));
